@@ -720,3 +720,42 @@ Proof.
       assert (N.to_nat x <> length h) by (intros E; apply Hn; unfold ua; rewrite <- E; symmetry; apply N2Nat.id). lia.
     + intros ->. fold h in Hx. rewrite Hv in Hx. discriminate.
 Qed.
+
+(* ------------------------------------------------------------------ *)
+(* 8. reading the list off a concrete heap (for examples)              *)
+(* ------------------------------------------------------------------ *)
+
+Fixpoint chain_of (fuel : nat) (h : heap) (c : option N) : option (list (N * nat)) :=
+  match fuel with
+  | O => None
+  | S f =>
+      match c with
+      | None => Some []
+      | Some a =>
+          match oview (hget h a) with
+          | Some (loc, nx) => option_map (cons (a, loc)) (chain_of f h nx)
+          | None => None
+          end
+      end
+  end.
+
+Lemma chain_of_sound : forall fuel h c l, chain_of fuel h c = Some l -> seg h c l None.
+Proof.
+  induction fuel as [|f IH]; intros h c l H; cbn [chain_of] in H; [discriminate|].
+  destruct c as [a|]; [|injection H as <-; constructor].
+  destruct (oview (hget h a)) as [[loc nx]|] eqn:Ev; [|discriminate].
+  destruct (chain_of f h nx) as [l'|] eqn:E; [|discriminate]. cbn in H. injection H as <-.
+  econstructor; [exact Ev|]. apply IH. exact E.
+Qed.
+
+(* all closure objects / all upvalue objects of a heap, with their addresses *)
+Definition closures_of (h : heap) : list (N * list N) :=
+  flat_map (fun p => match snd p with OClo _ _ ups => [(N.of_nat (fst p), ups)] | _ => [] end)
+           (combine (seq 0 (length h)) h).
+Definition upvalues_of (h : heap) : list (N * upval) :=
+  flat_map (fun p => match snd p with OUp u => [(N.of_nat (fst p), u)] | _ => [] end)
+           (combine (seq 0 (length h)) h).
+
+(* "every open slot is a live slot" - NOT an invariant, see VmUpvalueSem.open_slot_may_be_dead *)
+Definition open_live (s : state) : Prop :=
+  forall l, open_list s l -> Forall (fun x => snd x < scount s) l.
